@@ -17,6 +17,8 @@ set_option linter.unusedSimpArgs false
 set_option linter.unusedVariables false
 namespace Hostd.Revision
 
+variable {sg : Sigs}
+
 macro "res_ok'" " at " h:ident : tactic =>
   `(tactic| simp only [bind_ok_iff, check_ok_iff, out0_ok_iff, out1_ok_iff, out2_ok_iff, caddF_ok_iff, csubF_ok_iff,
       cadd_ok_iff, csub_ok_iff, cmulF_ok_iff,
@@ -445,19 +447,20 @@ theorem validateRenewal3_ok {fx : Bool} {e r : Rev} {expUH base risk h a b : Nat
 `formRecorded` (locked = validHost − contractPrice, RPC revenue = contractPrice), the contract
 satisfies every clause and its proof window starts before the v2 hard fork. -/
 theorem rpcForm2_accept_safe {rh expUH h : Nat} {fc : Rev} {st : Settings} {rec : Recorded}
-    (hh : rpcForm2 rh fc expUH h st = .ok rec) :
+    (hh : rpcForm2 rh fc expUH h st sg = .ok rec) :
     fc.wStart < rh ∧ (∀ cl ∈ contractClauses fc h st 0 rec.locked, cl.2 = true) ∧ formRecorded fc st = some rec := by
   unfold rpcForm2 at hh
   res_ok' at hh
-  obtain ⟨_, hrh, c, hc, rfl⟩ := hh
+  obtain ⟨_, hrh, c, hc, _, rfl⟩ := hh
   have := formation_accept_safe hc
   exact ⟨hrh, this.1, this.2.1⟩
 
-theorem rpcForm2_no_panic (rh expUH h : Nat) (fc : Rev) (st : Settings) : NoPanic (rpcForm2 rh fc expUH h st) := by
+theorem rpcForm2_no_panic (rh expUH h : Nat) (fc : Rev) (st : Settings) : NoPanic (rpcForm2 rh fc expUH h st sg) := by
   unfold rpcForm2
   refine NoPanic.bind (check_noPanic _ _) fun _ _ => ?_
   refine NoPanic.bind (check_noPanic _ _) fun _ _ => ?_
   refine NoPanic.bind (formation_no_panic _ _ _ _) fun _ _ => ?_
+  refine NoPanic.bind (check_noPanic _ _) fun _ _ => ?_
   exact NoPanic.pure _
 
 /-- **C12 (rpcRenewAndClearContract).** For ALL existing revisions, renewals, clearing values, heights and
@@ -465,14 +468,14 @@ settings: if the RHP2 handler reaches `RenewContract`, the renewal satisfies eve
 base storage revenue `StoragePrice·filesize·extension`, and the recorded locked collateral, risked
 collateral and usage are exactly the closed form `renew2Recorded`. -/
 theorem rpcRenew2_accept_safe {fx : Bool} {rh expUH h : Nat} {e r : Rev} {fv : List Nat} {st : Settings} {rec : Recorded}
-    (hh : rpcRenew2 fx rh e r fv expUH h st = .ok rec) :
+    (hh : rpcRenew2 fx rh e r fv expUH h st sg = .ok rec) :
     r.wStart < rh ∧
     (∀ cl ∈ contractClauses r h st (baseCost st.storagePrice e r) rec.locked, cl.2 = true) ∧
     renew2Recorded e r fv st = some rec ∧
     r.filesize = e.filesize ∧ r.root = e.root ∧ e.wEnd ≤ r.wEnd := by
   unfold rpcRenew2 at hh
   res_ok' at hh
-  obtain ⟨_, _, hrh, clearing, hclr, evr, _, fp, hfp, ⟨b1, b2⟩, hbase, ⟨a, b, c⟩, hval, storage, ⟨hsub, rfl⟩, tot, _, rfl⟩ := hh
+  obtain ⟨_, _, hrh, clearing, hclr, evr, _, fp, hfp, ⟨b1, b2⟩, hbase, ⟨a, b, c⟩, hval, storage, ⟨hsub, rfl⟩, _, _, tot, _, rfl⟩ := hh
   obtain ⟨rfl, rfl⟩ := renewBase_ok hbase
   obtain ⟨vh, mh, void, sf, hle, hburn, hvoid, hb, hmc, rfl, rfl, rfl⟩ := validateRenewal2_ok hval
   obtain ⟨x, y, r1, r2, hv, hm⟩ := sf.shape
@@ -498,7 +501,7 @@ theorem rpcRenew2_accept_safe {fx : Bool} {rh expUH h : Nat} {e r : Rev} {fv : L
   refine ⟨by trivial, by trivial, by omega, by trivial, by trivial⟩
 
 theorem rpcRenew2_window_partial {fx : Bool} {rh expUH h : Nat} {e r : Rev} {fv : List Nat} {st : Settings} {rec : Recorded}
-    (hh : rpcRenew2 fx rh e r fv expUH h st = .ok rec) (hn : h + st.maxDuration + st.windowSize < U64) :
+    (hh : rpcRenew2 fx rh e r fv expUH h st sg = .ok rec) (hn : h + st.maxDuration + st.windowSize < U64) :
     h + st.windowSize ≤ r.wStart ∧ r.wStart ≤ h + st.maxDuration ∧ r.wStart + st.windowSize ≤ r.wEnd := by
   unfold rpcRenew2 at hh
   res_ok' at hh
@@ -508,14 +511,14 @@ theorem rpcRenew2_window_partial {fx : Bool} {rh expUH h : Nat} {e r : Rev} {fv 
 /-- **C12 (handleRPCRenew).** the same for RHP3: base revenue `RenewContractCost + WriteStoreCost·filesize·extension`
 (recorded as storage revenue), locked = validHost − (contractPrice + base). -/
 theorem rpcRenew3_accept_safe {fx : Bool} {rh expUH h : Nat} {e k r : Rev} {st : Settings} {rec : Recorded}
-    (hh : rpcRenew3 fx rh e k r expUH h st = .ok rec) :
+    (hh : rpcRenew3 fx rh e k r expUH h st sg = .ok rec) :
     r.wStart < rh ∧
     (∀ cl ∈ contractClauses r h st (st.renewCost + baseCost st.storagePrice e r) rec.locked, cl.2 = true) ∧
     renew3Recorded e k r st = some rec ∧
     r.filesize = e.filesize ∧ r.root = e.root ∧ e.wEnd ≤ r.wEnd := by
   unfold rpcRenew3 at hh
   res_ok' at hh
-  obtain ⟨hrh, fp, hfp, ⟨b1, b2⟩, hbase, ⟨a, b⟩, hval, tot, _, rfl⟩ := hh
+  obtain ⟨hrh, fp, hfp, _, ⟨b1, b2⟩, hbase, ⟨a, b⟩, hval, _, tot, _, rfl⟩ := hh
   obtain ⟨rfl, rfl⟩ := renewBase_ok hbase
   obtain ⟨vh, mh, void, sf, hle, hburn, hvoid, hb, hmc, rfl, rfl⟩ := validateRenewal3_ok hval
   obtain ⟨x, y, r1, r2, hv, hm⟩ := sf.shape
@@ -524,22 +527,43 @@ theorem rpcRenew3_accept_safe {fx : Bool} {rh expUH h : Nat} {e k r : Rev} {st :
   simp only [renew3Recorded, hv, hm, hostVal_cons, hcvh, hfvh]
 
 theorem rpcRenew3_window_partial {fx : Bool} {rh expUH h : Nat} {e k r : Rev} {st : Settings} {rec : Recorded}
-    (hh : rpcRenew3 fx rh e k r expUH h st = .ok rec) (hn : h + st.maxDuration + st.windowSize < U64) :
+    (hh : rpcRenew3 fx rh e k r expUH h st sg = .ok rec) (hn : h + st.maxDuration + st.windowSize < U64) :
     h + st.windowSize ≤ r.wStart ∧ r.wStart ≤ h + st.maxDuration ∧ r.wStart + st.windowSize ≤ r.wEnd := by
   unfold rpcRenew3 at hh
   res_ok' at hh
-  obtain ⟨hrh, fp, hfp, ⟨b1, b2⟩, hbase, ⟨a, b⟩, hval, _⟩ := hh
+  obtain ⟨hrh, fp, hfp, _, ⟨b1, b2⟩, hbase, ⟨a, b⟩, hval, _⟩ := hh
   exact renewal3_window_partial hval hn
 
 /-- the clearing revision accepted on the RHP3 path satisfies the clearing clauses of C07 -/
 theorem rpcRenew3_clearing_safe {fx : Bool} {rh expUH h : Nat} {e k r : Rev} {st : Settings} {rec : Recorded}
-    (hh : rpcRenew3 fx rh e k r expUH h st = .ok rec) (hU : e.revNo ≤ maxRev)
+    (hh : rpcRenew3 fx rh e k r expUH h st sg = .ok rec) (hU : e.revNo ≤ maxRev)
     (hwf : fx = false → e.valid.length = 2 ∧ e.revNo ≠ maxRev) :
     ∀ c ∈ clearingClauses e k 0, c.2 = true := by
   unfold rpcRenew3 at hh
   res_ok' at hh
   obtain ⟨hrh, fp, hfp, _⟩ := hh
   exact validateClearing_accept_safe hfp hU hwf
+
+/-- nothing is recorded (and no host signature is released by `AddContract` / `RenewContract`) unless
+the renter's signatures over the revisions verify -/
+theorem rpcForm2_needs_signature {rh expUH h : Nat} {fc : Rev} {st : Settings} {rec : Recorded}
+    (hh : rpcForm2 rh fc expUH h st sg = .ok rec) : sg.contract = true := by
+  unfold rpcForm2 at hh
+  res_ok' at hh
+  obtain ⟨_, hrh, c, hc, hs, rfl⟩ := hh
+  simpa using hs
+theorem rpcRenew2_needs_signatures {fx : Bool} {rh expUH h : Nat} {e r : Rev} {fv : List Nat} {st : Settings} {rec : Recorded}
+    (hh : rpcRenew2 fx rh e r fv expUH h st sg = .ok rec) : sg.clearing = true ∧ sg.contract = true := by
+  unfold rpcRenew2 at hh
+  res_ok' at hh
+  obtain ⟨_, _, hrh, clearing, hclr, evr, _, fp, hfp, ⟨b1, b2⟩, hbase, ⟨a, b, c⟩, hval, storage, _, h1, h2, _⟩ := hh
+  exact ⟨by simpa using h1, by simpa using h2⟩
+theorem rpcRenew3_needs_signatures {fx : Bool} {rh expUH h : Nat} {e k r : Rev} {st : Settings} {rec : Recorded}
+    (hh : rpcRenew3 fx rh e k r expUH h st sg = .ok rec) : sg.clearing = true ∧ sg.contract = true := by
+  unfold rpcRenew3 at hh
+  res_ok' at hh
+  obtain ⟨hrh, fp, hfp, h1, ⟨b1, b2⟩, hbase, ⟨a, b⟩, hval, h2, _⟩ := hh
+  exact ⟨by simpa using h1, by simpa using h2⟩
 
 /-! no_panic of the handler paths -/
 
@@ -559,7 +583,7 @@ theorem rpcRenew2_noPanic {fx : Bool} {rh expUH h : Nat} {e r : Rev} {fv : List 
     (he : 0 < e.valid.length) (hsupply : total e.valid + st.contractPrice < C128)
     (H : fx = true ∨ (2 ≤ e.valid.length ∧ BaseSafe st.contractPrice st.storagePrice st.collateral e r ∧
       st.contractPrice + baseCost st.storagePrice e r + baseCost st.collateral e r < C128)) :
-    NoPanic (rpcRenew2 fx rh e r fv expUH h st) := by
+    NoPanic (rpcRenew2 fx rh e r fv expUH h st sg) := by
   unfold rpcRenew2
   refine NoPanic.bind (check_noPanic _ _) fun _ _ => ?_
   refine NoPanic.bind (check_noPanic _ _) fun _ _ => ?_
@@ -576,6 +600,8 @@ theorem rpcRenew2_noPanic {fx : Bool} {rh expUH h : Nat} {e r : Rev} {fv : List 
   · intro s hs
     have := csub_panic_iff.mp hs
     omega
+  refine NoPanic.bind (check_noPanic _ _) fun _ _ => ?_
+  refine NoPanic.bind (check_noPanic _ _) fun _ _ => ?_
   refine NoPanic.bind ?_ fun _ _ => NoPanic.pure _
   intro s hs
   have := cadd_panic_iff.mp hs
@@ -586,14 +612,16 @@ theorem rpcRenew3_noPanic {fx : Bool} {rh expUH h : Nat} {e k r : Rev} {st : Set
     (H : fx = true ∨ (2 ≤ e.valid.length ∧ BaseSafe st.renewCost st.storagePrice st.collateral e r ∧
       st.renewCost + baseCost st.storagePrice e r + baseCost st.collateral e r < C128 ∧
       st.contractPrice + (st.renewCost + baseCost st.storagePrice e r) < C128)) :
-    NoPanic (rpcRenew3 fx rh e k r expUH h st) := by
+    NoPanic (rpcRenew3 fx rh e k r expUH h st sg) := by
   unfold rpcRenew3
   refine NoPanic.bind (check_noPanic _ _) fun _ _ => ?_
   refine NoPanic.bind (validateClearing_noPanic (H.imp id (·.1))) fun fp hfp => ?_
   have hfpLe := clearing_payment_le hfp
+  refine NoPanic.bind (check_noPanic _ _) fun _ _ => ?_
   refine NoPanic.bind (renewBase_noPanic (H.imp id (·.2.1))) fun ⟨b1, b2⟩ hb => ?_
   obtain ⟨rfl, rfl⟩ := renewBase_ok hb
   refine NoPanic.bind (validateRenewal3_noPanic hr (H.imp id (fun h => ⟨h.2.2.1, h.2.2.2⟩))) fun ⟨a, b⟩ _ => ?_
+  refine NoPanic.bind (check_noPanic _ _) fun _ _ => ?_
   refine NoPanic.bind ?_ fun _ _ => NoPanic.pure _
   intro s hs
   have := cadd_panic_iff.mp hs
@@ -604,24 +632,24 @@ theorem rpcRenew3_noPanic {fx : Bool} {rh expUH h : Nat} {e k r : Rev} {st : Set
 so that the `Usage.Add` after `RenewContract` cannot overflow; it is not part of the repair) -/
 theorem rpcRenew2_no_panic_fixed_partial (rh expUH h : Nat) (e r : Rev) (fv : List Nat) (st : Settings)
     (he : 0 < e.valid.length) (hsupply : total e.valid + st.contractPrice < C128) :
-    NoPanic (rpcRenew2 true rh e r fv expUH h st) := rpcRenew2_noPanic he hsupply (Or.inl rfl)
+    NoPanic (rpcRenew2 true rh e r fv expUH h st sg) := rpcRenew2_noPanic he hsupply (Or.inl rfl)
 /-- **C12 no_panic, repaired variant** (payouts are 128-bit values; `hsupply` as above) -/
 theorem rpcRenew3_no_panic_fixed_partial (rh expUH h : Nat) (e k r : Rev) (st : Settings) (hr : ∀ o ∈ r.valid, o.val < C128)
     (hsupply : total e.valid + st.contractPrice < C128) :
-    NoPanic (rpcRenew3 true rh e k r expUH h st) := rpcRenew3_noPanic hr hsupply (Or.inl rfl)
+    NoPanic (rpcRenew3 true rh e k r expUH h st sg) := rpcRenew3_noPanic hr hsupply (Or.inl rfl)
 
 /-- **C12 no_panic, current tree, partial**: no overflow in the base cost arithmetic, well-shaped existing revision -/
 theorem rpcRenew2_no_panic_partial {rh expUH h : Nat} {e r : Rev} {fv : List Nat} {st : Settings}
     (he : 2 ≤ e.valid.length) (hsupply : total e.valid + st.contractPrice < C128)
     (hb : BaseSafe st.contractPrice st.storagePrice st.collateral e r)
     (hs : st.contractPrice + baseCost st.storagePrice e r + baseCost st.collateral e r < C128) :
-    NoPanic (rpcRenew2 false rh e r fv expUH h st) := rpcRenew2_noPanic (by omega) hsupply (Or.inr ⟨he, hb, hs⟩)
+    NoPanic (rpcRenew2 false rh e r fv expUH h st sg) := rpcRenew2_noPanic (by omega) hsupply (Or.inr ⟨he, hb, hs⟩)
 theorem rpcRenew3_no_panic_partial {rh expUH h : Nat} {e k r : Rev} {st : Settings}
     (hr : ∀ o ∈ r.valid, o.val < C128) (he : 2 ≤ e.valid.length) (hsupply : total e.valid + st.contractPrice < C128)
     (hb : BaseSafe st.renewCost st.storagePrice st.collateral e r)
     (hs : st.renewCost + baseCost st.storagePrice e r + baseCost st.collateral e r < C128)
     (hp : st.contractPrice + (st.renewCost + baseCost st.storagePrice e r) < C128) :
-    NoPanic (rpcRenew3 false rh e k r expUH h st) := rpcRenew3_noPanic hr hsupply (Or.inr ⟨he, hb, hs, hp⟩)
+    NoPanic (rpcRenew3 false rh e k r expUH h st sg) := rpcRenew3_noPanic hr hsupply (Or.inr ⟨he, hb, hs, hp⟩)
 
 /-! witnesses: a remote peer crashes the CURRENT handlers before validation rejects its input -/
 
@@ -632,26 +660,31 @@ def exClearing : Rev :=
 `StoragePrice.Mul64(Filesize).Mul64(extension)` overflows before `validateContractRenewal` would have
 rejected the wrong file size (corpus/revision/c12_witnesses.trace) -/
 theorem rpcRenew2_panics_base_overflow :
-    rpcRenew2 false U64 exExisting { exRenewal with filesize := U64 - 1, wEnd := U64 - 1 } [4999, 701] 10 1000 exSettings
+    rpcRenew2 false U64 exExisting { exRenewal with filesize := U64 - 1, wEnd := U64 - 1 } [4999, 701] 10 1000 exSettings ⟨true, true⟩
       = .panic .baseStorageMul2 := by decide +kernel
 theorem rpcRenew3_panics_base_overflow :
     rpcRenew3 false U64 exExisting exClearing
-      { exRenewal with filesize := U64 - 1, wEnd := U64 - 1 } 10 1000 exSettings = .panic .baseStorageMul2 := by
+      { exRenewal with filesize := U64 - 1, wEnd := U64 - 1 } 10 1000 exSettings ⟨true, true⟩ = .panic .baseStorageMul2 := by
   decide +kernel
 /-- after the repair both are plain rejections -/
-example : rpcRenew2 true U64 exExisting { exRenewal with filesize := U64 - 1, wEnd := U64 - 1 } [4999, 701] 10 1000 exSettings
+example : rpcRenew2 true U64 exExisting { exRenewal with filesize := U64 - 1, wEnd := U64 - 1 } [4999, 701] 10 1000 exSettings ⟨true, true⟩
     = .reject .costOverflow := by decide +kernel
 
 example : BaseSafe 200 3 2 exExisting exRenewal := by intro _; decide +kernel
 example : 2 ≤ exExisting.valid.length ∧ total exExisting.valid + exSettings.contractPrice < C128 := by decide +kernel
-example : rpcForm2 U64 exForm 10 1000 exSettings
+example : rpcForm2 U64 exForm 10 1000 exSettings ⟨true, true⟩
     = .ok { locked := 500, rpcRevenue := 200, storageRevenue := 0, risked := 0, clearingRPC := 0 } := by decide +kernel
-example : rpcRenew3 false U64 exExisting exClearing exRenewal 10 1000 { exSettings with maxCollateral := 5000000 }
+example : rpcRenew3 false U64 exExisting exClearing exRenewal 10 1000 { exSettings with maxCollateral := 5000000 } ⟨true, true⟩
     = .ok { locked := 1001521, rpcRevenue := 200, storageRevenue := 2998279, risked := 0, clearingRPC := 0 } := by
   decide +kernel
 
+/-- an invalid renter signature stops each handler before anything is recorded -/
+example : rpcForm2 U64 exForm 10 1000 exSettings ⟨true, false⟩ = .reject .renterSig := by decide +kernel
+example : rpcRenew3 false U64 exExisting exClearing exRenewal 10 1000 { exSettings with maxCollateral := 5000000 } ⟨false, true⟩
+    = .reject .renterSig := by decide +kernel
+
 /-- an accepted RHP2 renewal and what is recorded for it -/
-example : rpcRenew2 false U64 exExisting exRenewal [4999, 701] 10 1000 { exSettings with maxCollateral := 2000000 }
+example : rpcRenew2 false U64 exExisting exRenewal [4999, 701] 10 1000 { exSettings with maxCollateral := 2000000 } ⟨true, true⟩
     = .ok { locked := 1001528, rpcRevenue := 200, storageRevenue := 2998272, risked := 0, clearingRPC := 1 } := by
   decide +kernel
 
